@@ -17,6 +17,9 @@ variable {α : Type} [AddCommMonoid α]
 def dropAxes {β} (A : List Nat) (l : List β) : List β :=
   (l.zipIdx.filter (fun p => !A.contains p.2)).map (·.1)
 
+/-- glue: `dropAxes` is the `dropIdx` the helper lemmas are stated with (same body). -/
+theorem dropAxes_eq_dropIdx {β} (A : List Nat) (l : List β) : dropAxes A l = Sfs.dropIdx A l := rfl
+
 /-- marginalize_eq_spec: for a valid axis list (no duplicates, all in range, not all axes) in ANY order, the result
     lives over the remaining axes in their original order and entry `t` is the sum of all entries of the input whose
     index agrees with `t` on the remaining axes, i.e. the sum over all indices of the removed axes. -/
@@ -27,13 +30,24 @@ theorem marginalize_eq_spec (a : Arr α) (axes : List Nat)
       b.data = (List.range (size (dropAxes axes a.shape))).map (fun t =>
         ∑ f ∈ Finset.range (size a.shape),
           if dropAxes axes (unflat a.shape f) = unflat (dropAxes axes a.shape) t then a.data.getD f 0 else 0) := by
-  sorry
+  have h := (marginalize_isMarg a axes hlen hnd hb).1
+  simp only [dropAxes_eq_dropIdx]
+  exact ⟨_, marginalize_ok a axes hnd hb hl, h.1, h.2⟩
 
 /-- The result does not depend on the order in which the axes are named. -/
 theorem marginalize_perm (a : Arr α) (axes₁ axes₂ : List Nat) (hp : axes₁.Perm axes₂)
     (hnd : axes₁.Nodup) (hb : ∀ ax ∈ axes₁, ax < a.shape.length) :
     marginalize a axes₁ = marginalize a axes₂ := by
-  sorry
+  have hnd₂ : axes₂.Nodup := hp.nodup hnd
+  have hb₂ : ∀ ax ∈ axes₂, ax < a.shape.length := fun ax h => hb ax (hp.symm.subset h)
+  by_cases hl : axes₁.length < a.shape.length
+  · rw [marginalize_ok a axes₁ hnd hb hl, marginalize_ok a axes₂ hnd₂ hb₂ (hp.length_eq ▸ hl),
+      sortNat_eq_of_perm hp]
+  · have e₁ : marginalize a axes₁ = .error (.tooManyAxes axes₁.length a.shape.length) :=
+      marginalize_too_many a axes₁ hnd hb (by omega)
+    have e₂ : marginalize a axes₂ = .error (.tooManyAxes axes₂.length a.shape.length) :=
+      marginalize_too_many a axes₂ hnd₂ hb₂ (by rw [← hp.length_eq]; omega)
+    rw [e₁, e₂, hp.length_eq]
 
 /-- Removing one axis first and then the others (re-indexed) equals removing them jointly;
     by induction any one-at-a-time order equals the joint removal. -/
@@ -43,36 +57,57 @@ theorem marginalize_stepwise (a : Arr α) (x : Nat) (rest : List Nat)
     marginalize a (x :: rest) =
       (match marginalize a [x] with
        | .ok b => marginalize b (rest.map (fun y => if y > x then y - 1 else y))
-       | .error e => .error e) := by
-  sorry
+       | .error e => .error e) :=
+  marginalize_stepwise_aux a x rest hlen hnd hb hl hr
 
 /-- Total mass is preserved. -/
 theorem marginalize_mass (a b : Arr α) (axes : List Nat)
     (hlen : a.data.length = size a.shape) (h : marginalize a axes = .ok b) :
     b.data.sum = a.data.sum := by
-  sorry
+  obtain ⟨hnd, hb, hl⟩ := marginalize_ok_inv a b axes h
+  rw [marginalize_ok a axes hnd hb hl] at h
+  cases h
+  exact (marginalize_isMarg a axes hlen hnd hb).2
 
 /-- `--marginalize-keep K` removes exactly the complement of `K`, sorted. -/
 theorem keep_eq_remove_complement (dims : Nat) (keep : List Nat) :
     (∀ i, i ∈ keepToRemove dims keep ↔ (i < dims ∧ i ∉ keep)) ∧ (keepToRemove dims keep).Nodup
       ∧ isSortedLe (keepToRemove dims keep) = true := by
-  sorry
+  refine ⟨fun i => ?_, ?_, ?_⟩
+  · simp [keepToRemove]
+  · exact List.nodup_range.filter _
+  · rw [isSortedLe_iff]
+    exact (List.pairwise_lt_range.imp (fun h => Nat.le_of_lt h)).filter _
 
 /-! ### errors: duplicate, then out-of-range, then removing every axis -/
 
 theorem duplicate_is_error (a : Arr α) (axes : List Nat) (h : ¬ axes.Nodup) :
     ∃ d, marginalize a axes = .error (.duplicateAxis d) ∧ 2 ≤ axes.count d := by
-  sorry
+  cases hd : firstDuplicate axes with
+  | none => exact absurd ((firstDuplicate_eq_none_iff axes).mp hd) h
+  | some d =>
+    refine ⟨d, ?_, firstDuplicate_some_count axes d hd⟩
+    unfold marginalize
+    rw [hd]
 
 theorem out_of_range_is_error (a : Arr α) (axes : List Nat) (hnd : axes.Nodup)
     (h : ∃ ax ∈ axes, a.shape.length ≤ ax) :
     ∃ ax, marginalize a axes = .error (.axisOutOfBounds ax a.shape.length) ∧ ax ∈ axes ∧ a.shape.length ≤ ax := by
-  sorry
+  cases hf : axes.find? (fun ax => decide (ax ≥ a.shape.length)) with
+  | none =>
+    obtain ⟨ax, hax, hle⟩ := h
+    have := List.find?_eq_none.mp hf ax hax
+    simp at this; omega
+  | some ax =>
+    refine ⟨ax, ?_, List.mem_of_find?_eq_some hf, by simpa using List.find?_some hf⟩
+    unfold marginalize
+    rw [(firstDuplicate_eq_none_iff axes).mpr hnd]
+    simp only [hf]
 
 theorem all_axes_is_error (a : Arr α) (axes : List Nat) (hnd : axes.Nodup)
     (hb : ∀ ax ∈ axes, ax < a.shape.length) (hl : a.shape.length ≤ axes.length) :
-    marginalize a axes = .error (.tooManyAxes axes.length a.shape.length) := by
-  sorry
+    marginalize a axes = .error (.tooManyAxes axes.length a.shape.length) :=
+  marginalize_too_many a axes hnd hb hl
 
 /-! non-vacuity: shape [2,3,4], axes [2,0] (unsorted, unequal lengths) -/
 example : (marginalize (⟨List.range 24, [2, 3, 4]⟩ : Arr Nat) [2, 0]).toOption.map (fun b => (b.shape, b.data))
